@@ -348,11 +348,12 @@ func c13run(w *report.W) {
 		execs++
 		g := &docgen.Gen{X: x}
 		doc := g.Pipeline()
-		total := c13countNodes(doc.In)
+		base := doc.In.Clone() // aliases expanded: an injection must not separate an alias from its anchor
+		total := c13countNodes(base)
 		for i := 0; i < total; i++ {
 			for ji, inj := range c13injections {
 				idx := i
-				mut := c13replace(doc.In, &idx, inj())
+				mut := c13replace(base, &idx, inj())
 				pres := "yaml-block"
 				if (i+ji)%4 == 0 {
 					pres = "json"
